@@ -1403,4 +1403,120 @@ Section Proofs.
     apply fresh_ok in Fx. tauto.
   Qed.
 
+  (* symmetric difference *)
+  Lemma alg_xor enf d p eb b r : Inv d -> TInv d -> omap enf d p = Ok (eb, b) ->
+    loose eb b (vals d) -> loose enf d (oitems d p) -> spec_xor enf d p = Ok r ->
+    forall k, In k (keys r) <->
+              (In k (keys d) /\ ~ In k (keys b)) \/ (In k (keys b) /\ ~ In k (keys d)).
+  Proof.
+    intros I T O Lb Ld. unfold Spec.spec_xor, Spec.spec_sub. rewrite O.
+    set (A := filter (fun e => negb (member eb b (AItem (snd e)))) d).
+    assert (IA : Inv A) by (now apply inv_filter).
+    assert (KA : forall k, In k (keys A) <-> In k (keys d) /\ ~ In k (keys b)).
+    { intro k. unfold A. rewrite alg_sub, filter_In by auto. rewrite negb_true_iff.
+      split; intros [H1 H2]; split; auto.
+      - intro H. apply has_In in H. congruence.
+      - destruct (has k b) eqn:M; auto. apply has_In in M. contradiction. }
+    destruct (match p with PKS _ xs => _ | _ => _ end) as [B|] eqn:EB; [|discriminate].
+    assert (IB : Inv B /\ forall k, In k (keys B) <-> In k (keys b) /\ ~ In k (keys d)).
+    { pose proof (omap_inv _ _ _ _ _ I T O) as Ib.
+      destruct p; try (split; [apply (spec_rsub_ok _ _ _ _ EB)|eapply alg_rsub; eauto]).
+      assert (EB' : B = filter (fun e => negb (member enf d (AItem (snd e)))) (the_map xs))
+        by congruence.
+      assert (Eb : b = the_map xs) by (simpl in O; congruence).
+      clear EB. subst B. rewrite <- Eb in *. split; [now apply inv_filter|].
+      assert (Ld' : loose enf d (vals b)) by (rewrite Eb; exact Ld).
+      intro k. rewrite alg_sub, filter_In by auto. rewrite negb_true_iff.
+      split; intros [H1 H2]; split; auto.
+      - intro H. apply has_In in H. congruence.
+      - destruct (has k d) eqn:M; auto. apply has_In in M. contradiction. }
+    destruct IB as [IB KB]. intros F k. apply fresh_ok in F. destruct F as [-> _].
+    rewrite keys_the_map_In, map_app, in_app_iff, <- !keys_vals by auto.
+    now rewrite KA, KB.
+  Qed.
+
+  (* inclusion *)
+  Lemma alg_subset e a b : Inv a -> loose e b (vals a) ->
+    (subset e a b = true <-> incl (keys a) (keys b)).
+  Proof.
+    intros I L. unfold Spec.subset. rewrite forallb_forall, (keys_vals a I). split.
+    - intros H k Hk. apply in_map_iff in Hk. destruct Hk as [x [<- Hx]].
+      apply has_In. rewrite <- (member_loose _ _ _ _ L Hx). auto.
+    - intros H x Hx. rewrite (member_loose _ _ _ _ L Hx). apply has_In. apply H. now apply in_map.
+  Qed.
+
+  Lemma alg_disjoint enf d its : loose enf d its ->
+    (forallb (fun x => negb (member enf d (AItem x))) its = true <->
+     forall k, In k (map key its) -> ~ In k (keys d)).
+  Proof.
+    intro L. rewrite forallb_forall. split.
+    - intros H k Hk Hd. apply in_map_iff in Hk. destruct Hk as [x [<- Hx]].
+      specialize (H x Hx). rewrite (member_loose _ _ _ _ L Hx) in H.
+      apply has_In in Hd. rewrite Hd in H. discriminate.
+    - intros H x Hx. rewrite (member_loose _ _ _ _ L Hx). apply negb_true_iff.
+      destruct (has (key x) d) eqn:M; auto. apply has_In in M.
+      exfalso. apply (H (key x)); auto. now apply in_map.
+  Qed.
+
+  (* == is equality of mappings *)
+  Lemma alg_eq a b : Inv a -> Inv b ->
+    (dict_eq keqb ieqb a b = true <-> forall k, lookup k a = lookup k b).
+  Proof.
+    intros [Na _] [Nb _]. unfold dict_eq. rewrite andb_true_iff, Nat.eqb_eq, forallb_forall. split.
+    - intros [Len H] k.
+      assert (Sub : forall j y, In (j, y) a -> lookup j b = Some y).
+      { intros j y Hj. specialize (H _ Hj). simpl in H.
+        destruct (lookup j b) as [z|]; [|discriminate]. apply ieqb_eq in H. congruence. }
+      assert (Iab : incl (keys a) (keys b)).
+      { intros j Hj. apply in_map_iff in Hj. destruct Hj as [[j' y] [<- Hy]].
+        apply Sub in Hy. apply lookup_In in Hy. apply in_map_iff. exists (j', y); auto. }
+      assert (Iba : incl (keys b) (keys a)).
+      { apply (NoDup_length_incl Na); auto. rewrite !map_length. lia. }
+      destruct (lookup k a) as [y|] eqn:La.
+      + symmetry. apply Sub. now apply lookup_In.
+      + symmetry. apply lookup_None. intro Hk. apply Iba in Hk. apply lookup_None in La. contradiction.
+    - intro H. split.
+      + assert (Iab : incl (keys a) (keys b)).
+        { intros j Hj. apply has_In in Hj. apply has_In. rewrite has_lookup in *. now rewrite <- H. }
+        assert (Iba : incl (keys b) (keys a)).
+        { intros j Hj. apply has_In in Hj. apply has_In. rewrite has_lookup in *. now rewrite H. }
+        pose proof (NoDup_incl_length Na Iab). pose proof (NoDup_incl_length Nb Iba).
+        rewrite !map_length in *. lia.
+      + intros [j y] Hj. simpl. rewrite <- H, (In_lookup _ _ _ Na Hj). apply ieqb_refl.
+  Qed.
+
+  (* |= *)
+  Lemma spec_add_put enf d x m : spec_add enf d x = Ok m -> m = put (key x) x d.
+  Proof.
+    unfold Spec.spec_add. destruct (valid x); [|discriminate].
+    destruct (lookup (key x) d) as [y|]; [destruct (enf && negb (ieqb y x)); [discriminate|]|];
+      intro H; now inversion H.
+  Qed.
+
+  Lemma alg_ior enf xs : forall d r, add_all enf d xs = Ok r ->
+    forall k, In k (keys r) <-> In k (keys d) \/ In k (map key xs).
+  Proof.
+    induction xs as [|x xs IH]; intros d r; simpl.
+    - intro H. inversion H; subst. tauto.
+    - destruct (spec_add enf d x) as [m|] eqn:A; [|discriminate].
+      apply spec_add_put in A. subst m. intros H k. rewrite (IH _ _ H), keys_put.
+      destruct (has (key x) d) eqn:M.
+      + apply has_In in M. split; [tauto|]. intros [H1|[<-|H1]]; auto.
+      + rewrite in_app_iff. simpl. tauto.
+  Qed.
+
+  (* -= *)
+  Lemma alg_isub enf d its : Inv d -> loose enf d its ->
+    keys (filter (fun e => negb (existsb (fun x => matches enf x e) its)) d)
+    = filter (fun k => negb (existsb (fun x => keqb (key x) k) its)) (keys d).
+  Proof.
+    intros I L. apply keys_filter. intros [k y] He. cbn [fst]. f_equal.
+    induction its as [|x its IH]; simpl; auto.
+    rewrite IH by (eapply loose_incl; [|exact L]; intros z Hz; simpl; auto). f_equal.
+    unfold Spec.matches. cbn [fst snd]. destruct (keqb (key x) k) eqn:E; auto. simpl.
+    destruct L as [->|L]; auto. apply keqb_eq in E. subst k.
+    rewrite (L x y); [now rewrite ieqb_refl, orb_true_r|simpl; auto|].
+    apply In_lookup; auto. apply I.
+  Qed.
+
 End Proofs.
